@@ -42,7 +42,12 @@ def run(ctx: Ctx) -> None:
     for a in ASSUMPTIONS:
         ctx.assume(a)
     mode = "all" if ctx.tier == "thorough" else "reps"
-    base, pre, _unchanged = sweep(stages=("encode",), with_prefixes=mode)
+    base, pre, unchanged = sweep(stages=("encode",), with_prefixes=mode)
+    if not unchanged:
+        ctx.violation("C02.3/template-isolation", key_of(isa.OPCODES_PY, "create_instruction", "shared operand templates"),
+                      "decoding writes through the shared OPCODES operand templates (operands are not deep-copied): the look-ahead decode of the next instruction "
+                      "overwrites operands of the one being returned, so encode(decode(window)) != its own bytes", isa.OPCODES_PY)
+    ctx.instance("C02.3/template-isolation", "OPCODES template fingerprint unchanged after decoding 90 cases (no state shared between decoded instructions)", 90, 90)
     rows = isa.py_rows(py)
     accepted = [c for c in base if c.status == "ok"]
     ctx.need(len({c.opcode for c in base}) == 256, "sweep did not cover 256 opcodes")
